@@ -173,6 +173,9 @@ func init() {
 
 // Execute runs one plan in a fresh bubble.
 func Execute(t *testing.T, plan *Plan, opt ExecOpt) (res *RunResult) {
+	if curPlanFile != "" {
+		_ = SavePlan(curPlanFile, plan) // left for the driver: a crash of the whole process belongs to this plan
+	}
 	res = &RunResult{Seed: plan.Seed, Prop: plan.Prop, Profile: plan.Profile}
 	defer func() {
 		boltz.SimHook = nil
@@ -980,6 +983,25 @@ func (r *Run) body(tr *txRun, ctx boltz.MutateContext) (err error) {
 				yield("op")
 			}
 		}
+		if op.K == "updateCtx" {
+			// the caller attaches a value to the context and goes on with the context UpdateContext returns: actions
+			// registered through it belong to this transaction like any other
+			ctx = ctx.UpdateContext(func(c context.Context) context.Context { return context.WithValue(c, ctxKey{}, tr.id) })
+			if tr.plan.Ctx == "sys" {
+				// (UpdateContext of a system context hands back the wrapped ordinary context; whether it should stay a
+				// system context is not stated anywhere, the caller asks for it again)
+				ctx = ctx.GetSystemContext()
+			}
+			if v, _ := ctx.Context().Value(ctxKey{}).(string); v != tr.id {
+				r.s.HarnessError("UpdateContext: value not visible through the returned context")
+				panic(abortSig{})
+			}
+			r.mu.Lock()
+			r.ctxTx[ctx] = tr
+			r.res.Ops++
+			r.mu.Unlock()
+			continue
+		}
 		if err := r.execOp(a, ctx, i, op); err != nil {
 			return err
 		}
@@ -1274,6 +1296,29 @@ func (r *Run) afterTx(tr *txRun, err error, panicked bool) {
 		}
 	}
 	r.logf("%s returned err=%v committed=%v why=%s attempts=%d", tr.id, err, committed, why, len(tr.attempts))
+	if committed {
+		for fi, f := range tr.plan.Faults {
+			if f.Kind != "F3" || !f.Must {
+				continue
+			}
+			asked := false
+			for _, a := range tr.attempts {
+				if a.usedF[fi] {
+					asked = true
+				}
+			}
+			if !asked {
+				kind := "untyped"
+				if f.Typed {
+					kind = "typed"
+				}
+				if r.violate(Violation{Props: []string{"C07"}, Oracle: "tx", Sig: "constraint-not-consulted:" + f.Store + ":" + f.Change + ":" + kind,
+					Detail: fmt.Sprintf("%s committed a %s change of %q on store %s, but the %s constraint registered on that store was never asked (ProcessPreCommit): its veto could not have reached the caller", tr.id, f.Change, f.Id, f.Store, kind)}) {
+					panic(abortSig{})
+				}
+			}
+		}
+	}
 	switch {
 	case committed && last.mustFail != "":
 		// something failed inside the transaction (rejected operation, veto, storage error, caller error, panic,
@@ -1380,3 +1425,5 @@ func viewGuarded(db *boltz.DbImpl, fn func(tx *bbolt.Tx) error) (err error) {
 	}()
 	return db.View(fn)
 }
+
+type ctxKey struct{}
